@@ -872,7 +872,7 @@ func init() {
 		Plan: func(tier string) []Plan {
 			n := 3
 			if tier == "thorough" {
-				n = 24
+				n = 60
 			}
 			// the same rounds under the race-detector build (instrumented timing, checkptr) and under the plain build (throughput)
 			return []Plan{{Cases: n, Workers: 2, Race: true, MaxProcs: 8, Timeout: 40 * time.Minute, HangIsViol: true},
